@@ -40,14 +40,52 @@ func main() {
 		fatal(err)
 	}
 	replace := map[string]string{}
-	files, _ := filepath.Glob(filepath.Join(*repo, "*.go"))
+	// the root package and every library package below it (requests run through pkg/render, pkg/binding, ...)
+	var files []string
+	_ = filepath.Walk(*repo, func(p string, info os.FileInfo, err error) error {
+		if err != nil {
+			return nil
+		}
+		if info.IsDir() {
+			b := info.Name()
+			if p != *repo && (strings.HasPrefix(b, ".") || strings.HasPrefix(b, "_") || b == "testdata" || b == "vrt" || b == "vendor") {
+				return filepath.SkipDir
+			}
+			return nil
+		}
+		if strings.HasSuffix(p, ".go") && !strings.HasSuffix(p, "_test.go") {
+			files = append(files, p)
+		}
+		return nil
+	})
 	sort.Strings(files)
+	// package-level variables per directory (for the write monitor)
+	pkgVars := map[string]map[string]bool{}
+	for _, f := range files {
+		af, err := parser.ParseFile(token.NewFileSet(), f, nil, 0)
+		if err != nil {
+			fatal(err)
+		}
+		dir := filepath.Dir(f)
+		if pkgVars[dir] == nil {
+			pkgVars[dir] = map[string]bool{}
+		}
+		for _, d := range af.Decls {
+			if gd, ok := d.(*ast.GenDecl); ok && gd.Tok == token.VAR {
+				for _, sp := range gd.Specs {
+					for _, n := range sp.(*ast.ValueSpec).Names {
+						if n.Name != "_" {
+							pkgVars[dir][n.Name] = true
+						}
+					}
+				}
+			}
+		}
+	}
 	nextID := 0
 	total := 0
+	nW := 0
 	for _, f := range files {
-		if strings.HasSuffix(f, "_test.go") {
-			continue
-		}
 		src, err := os.ReadFile(f)
 		if err != nil {
 			fatal(err)
@@ -57,8 +95,30 @@ func main() {
 		if err != nil {
 			fatal(err)
 		}
-		if af.Name.Name != "rux" {
+		if af.Name.Name == "main" || (filepath.Dir(f) == *repo && af.Name.Name != "rux") {
 			continue
+		}
+		vars := pkgVars[filepath.Dir(f)]
+		topSpecs := map[any]bool{}
+		for _, d := range af.Decls {
+			if gd, ok := d.(*ast.GenDecl); ok && gd.Tok == token.VAR {
+				for _, sp := range gd.Specs {
+					topSpecs[sp] = true
+				}
+			}
+		}
+		// receiver names of methods on *Router, by body
+		routerRecv := map[*ast.BlockStmt]string{}
+		for _, d := range af.Decls {
+			fd, ok := d.(*ast.FuncDecl)
+			if !ok || fd.Recv == nil || fd.Body == nil || len(fd.Recv.List) != 1 || len(fd.Recv.List[0].Names) != 1 {
+				continue
+			}
+			if st, ok := fd.Recv.List[0].Type.(*ast.StarExpr); ok {
+				if id, ok := st.X.(*ast.Ident); ok && id.Name == "Router" {
+					routerRecv[fd.Body] = fd.Recv.List[0].Names[0].Name
+				}
+			}
 		}
 		var edits []edit
 		pkgNames := map[string]bool{}
@@ -86,9 +146,59 @@ func main() {
 			edits = append(edits, edit{off: off, text: prefix + repl, del: len(im.Path.Value)})
 		}
 		n := 0
+		// statements inside methods of *Router -> the receiver's name
+		recvOf := map[ast.Stmt]string{}
+		for body, name := range routerRecv {
+			name := name
+			ast.Inspect(body, func(nd ast.Node) bool {
+				if st, ok := nd.(ast.Stmt); ok {
+					recvOf[st] = name
+				}
+				return true
+			})
+		}
+		wEdits := 0
 		if *mode != "none" {
 			addList := func(list []ast.Stmt) {
 				for _, s := range list {
+					// write monitor: assignments to package-level variables and to fields of the Router
+					var lhs []ast.Expr
+					switch x := s.(type) {
+					case *ast.AssignStmt:
+						if x.Tok != token.DEFINE {
+							lhs = x.Lhs
+						}
+					case *ast.IncDecStmt:
+						lhs = []ast.Expr{x.X}
+					}
+					for _, l := range lhs {
+						base := chainPrefix(l)
+						if base == nil {
+							continue
+						}
+						root := base
+						for {
+							if sel, ok := root.(*ast.SelectorExpr); ok {
+								root = sel.X
+								continue
+							}
+							break
+						}
+						id := root.(*ast.Ident)
+						shared := false
+						if vars[id.Name] && (id.Obj == nil || topSpecs[id.Obj.Decl]) && !pkgNames[id.Name] {
+							shared = true
+						} else if rn := recvOf[s]; rn != "" && id.Name == rn && base != root {
+							shared = true
+						}
+						if !shared {
+							continue
+						}
+						txt := string(src[fset.Position(base.Pos()).Offset:fset.Position(base.End()).Offset])
+						pos := fset.Position(s.Pos())
+						edits = append(edits, edit{off: pos.Offset, text: fmt.Sprintf("vrtY.W(&(%s), %q); ", txt, fmt.Sprintf("%s (written at %s:%d)", txt, filepath.Base(f), pos.Line))})
+						wEdits++
+					}
 					if *mode == "visible" && !visible(s, pkgNames) {
 						continue
 					}
@@ -119,7 +229,8 @@ func main() {
 				return true
 			})
 		}
-		if n > 0 {
+		nW += wEdits
+		if n > 0 || wEdits > 0 {
 			// an extra import declaration right after the package clause
 			off := fset.Position(af.Name.End()).Offset
 			edits = append(edits, edit{off: off, text: "; import vrtY \"github.com/gookit/rux/vrt\""})
@@ -133,7 +244,8 @@ func main() {
 		for _, e := range edits {
 			b = append(b[:e.off], append([]byte(e.text), b[e.off+e.del:]...)...)
 		}
-		dst := filepath.Join(*out, filepath.Base(f))
+		rel, _ := filepath.Rel(*repo, f)
+		dst := filepath.Join(*out, strings.ReplaceAll(rel, string(filepath.Separator), "__"))
 		if err := os.WriteFile(dst, b, 0o644); err != nil {
 			fatal(err)
 		}
@@ -155,7 +267,7 @@ func main() {
 	if err := os.WriteFile(filepath.Join(*out, "overlay.json"), ov, 0o644); err != nil {
 		fatal(err)
 	}
-	fmt.Printf("vinstr: %d files rewritten, %d scheduling points (mode %s)\n", len(replace), total, *mode)
+	fmt.Printf("vinstr: %d files rewritten, %d scheduling points (mode %s), %d monitored writes\n", len(replace), total, *mode, nW)
 }
 
 func fatal(err error) {
@@ -221,6 +333,33 @@ func visible(s ast.Stmt, pkgs map[string]bool) bool {
 		})
 	}
 	return found
+}
+
+// chainPrefix returns the longest prefix of the assigned expression that is a pure selector chain x.a.b (index, slice,
+// dereference and parentheses are looked through); nil when the expression is not rooted at an identifier
+func chainPrefix(e ast.Expr) ast.Expr {
+	switch x := e.(type) {
+	case *ast.Ident:
+		if x.Name == "_" {
+			return nil
+		}
+		return x
+	case *ast.SelectorExpr:
+		p := chainPrefix(x.X)
+		if p == x.X {
+			return x
+		}
+		return p
+	case *ast.IndexExpr:
+		return chainPrefix(x.X)
+	case *ast.SliceExpr:
+		return chainPrefix(x.X)
+	case *ast.StarExpr:
+		return chainPrefix(x.X)
+	case *ast.ParenExpr:
+		return chainPrefix(x.X)
+	}
+	return nil
 }
 
 func isNilNode(n ast.Node) bool {
